@@ -509,6 +509,10 @@ func (c *Cluster) Merge(regionID1, regionID2 uint64) {
 	defer c.Unlock()
 
 	c.regions[regionID1].merge(c.regions[regionID2].Meta.GetEndKey())
+	// Like TiKV, the merged region is newer than both of its sources: max(version1, version2) + 1.
+	if v := c.regions[regionID2].Meta.GetRegionEpoch().GetVersion() + 1; v > c.regions[regionID1].Meta.GetRegionEpoch().GetVersion() {
+		c.regions[regionID1].Meta.RegionEpoch.Version = v
+	}
 	delete(c.regions, regionID2)
 }
 
@@ -730,6 +734,10 @@ func (r *Region) split(newRegionID uint64, key MvccKey, peerIDs []uint64, leader
 	region := newRegion(newRegionID, storeIDs, peerIDs, leaderPeerID)
 	region.updateKeyRange(key, r.Meta.EndKey)
 	r.updateKeyRange(r.Meta.StartKey, key)
+	// Like TiKV, both halves of a split carry the parent's incremented version. A split-off region
+	// that started again from its own counter would look older than the parent's description a client
+	// may still hold, and the region cache refuses to install an older overlapping region.
+	region.Meta.RegionEpoch.Version = r.Meta.GetRegionEpoch().GetVersion()
 	return region
 }
 
